@@ -26,6 +26,7 @@ CONSTANTS CHMOD,        \* 2^(width of CurrHF); writes to the field truncate (co
           FIXREV,       \* TRUE: try_reverse validates before it mutates; FALSE: pinned commit
           FIXWRAP,      \* TRUE: advance refuses to move CurrHF beyond the field; FALSE: pinned
           FIXHOPS,      \* TRUE: the encoder refuses more hop fields than CurrHF can address; FALSE: pinned
+          FIXOHEXP,     \* TRUE: one-hop expiry saturates; FALSE: pinned (plain addition)
           XorAcc(_, _)  \* accumulator step
 
 MAXSEGHOPS == 63
@@ -134,6 +135,25 @@ FirstEgress(p) == IF Len(p.inf) = 0 \/ Len(p.hop) = 0 THEN None ELSE TravelEg(p.
 LastIngress(p) == IF Len(p.inf) = 0 \/ Len(p.hop) = 0 THEN None ELSE TravelIn(p.hop[Len(p.hop)], p.inf[Len(p.inf)])
 CurrEgress(p) == IF p.ci >= Len(p.inf) \/ p.ch >= Len(p.hop) THEN None ELSE TravelEg(p.hop[p.ch + 1], p.inf[p.ci + 1])
 CurrIngress(p) == IF p.ci >= Len(p.inf) \/ p.ch >= Len(p.hop) THEN None ELSE TravelIn(p.hop[p.ch + 1], p.inf[p.ci + 1])
+
+
+(* ---- one-hop paths (onehop/view.rs, onehop/model.rs, dataplane_path/model.rs) -------------- *)
+(* o = [inf, h1, h2].  The view reverses in place; DpPath::try_reverse turns the one-hop path    *)
+(* into a standard path with the two hop fields exchanged (documented).                          *)
+OneHopReverse(o) ==        \* OneHopPathView::try_reverse == OneHopPath::try_reverse
+  IF o.h2.in = 0 THEN [ok |-> FALSE, o |-> o]
+  ELSE [ok |-> TRUE, o |-> [inf |-> Toggle(o.inf), h1 |-> o.h2, h2 |-> o.h1]]
+OneHopToStdReversed(o) ==  \* OneHopPath::try_into_reversed_standard_path
+  IF o.h2.in = 0 THEN [ok |-> FALSE, m |-> [ci |-> 0, ch |-> 0, segs |-> <<>>]]
+  ELSE [ok |-> TRUE, m |-> [ci |-> 0, ch |-> 0, segs |-> <<[inf |-> Toggle(o.inf), hops |-> <<o.h2, o.h1>>]>>]]
+\* OneHopPathView::expiration adds without saturation (FIXOHEXP = FALSE: pinned commit; the sum
+\* overflows u32 for timestamps near the end of the epoch)
+OneHopExpiry(o) ==
+  LET d == Dur(IF o.h1.exp <= o.h2.exp THEN o.h1.exp ELSE o.h2.exp) IN
+  IF o.inf.ts + d > U32CAP THEN (IF FIXOHEXP THEN [ok |-> TRUE, v |-> U32CAP] ELSE [ok |-> FALSE, v |-> 0])
+  ELSE [ok |-> TRUE, v |-> o.inf.ts + d]
+OneHopFirstEgress(o) == TravelEg(o.h1, o.inf)
+OneHopLastIngress(o) == TravelIn(o.h2, o.inf)
 
 (* ---- advance (routing.rs) --------------------------------------------------- *)
 (* v = [cur, seg, nxt]: verdicts of the validator (TRUE = accepts) for           *)
